@@ -618,6 +618,9 @@ func vfGenWildSuite(t *rapid.T, idx int) *conformancev1.TestSuite {
 			tc.Request.Cancel = &conformancev1.ClientCompatRequest_Cancel{}
 		}
 		tc.Request.UseGetHttpMethod = s.ReliesOnConnectGet && rapid.Bool().Draw(t, "useGet")
+		if rapid.IntRange(0, 39).Draw(t, "wild-norequest") == 0 {
+			tc.Request = nil // an empty list entry in the YAML file
+		}
 		s.TestCases = append(s.TestCases, tc)
 	}
 	if wild("nocases") {
